@@ -1256,13 +1256,13 @@ package yqlib
 //@ func (*CandidateNode).decodeIntoChild
 //@   props C05
 //@   nosafety
-//@   requires o != nil && childNode != nil
+//@   requires o != nil && childNode != nil && anchorMap != nil
 //@   ensures @child-of-the-same-look {C05} implies(result1 == nil, result0 != nil && fresh(result0) && sameLook(result0, childNode) && result0.Parent == o)
 
 //@ func (*CandidateNode).UnmarshalYAML
 //@   props C05
 //@   nosafety
-//@   requires o != nil && node != nil
+//@   requires o != nil && node != nil && anchorMap != nil
 //@   assume @children-non-nil forall(i, 0, len(node.Content), node.Content[i] != nil) && (len(node.Content) % 2 == 0 || node.Kind != 4)
 //@   modifies o.Kind, o.Style, o.Tag, o.Value, o.Anchor, o.Alias, o.HeadComment, o.LineComment, o.FootComment, o.Line, o.Column, o.Content
 //@   ensures @same-kind-and-look {C05} implies(result == nil, sameLook(o, node) && implies(node.Kind == 2 || node.Kind == 4 || node.Kind == 8 || node.Kind == 16, 2 * o.Kind == node.Kind))
